@@ -517,7 +517,12 @@ class WebSocket:
                 return frame.opcode, frame
             elif frame.opcode == ABNF.OPCODE_PING:
                 if len(frame.data) < 126:
-                    self.pong(frame.data)
+                    try:
+                        self.pong(frame.data)
+                    except (OSError, WebSocketException):
+                        # the reply is best effort: the loss is reported by the
+                        # read path once what has already arrived is delivered
+                        pass
                 else:
                     raise WebSocketProtocolException("Ping message is too long")
                 if control_frame:
